@@ -1,0 +1,10 @@
+//go:build verif
+
+package parser
+
+import "sync/atomic"
+
+// Eats counts calls of (*parser).eat, a deterministic measure of parser work (build tag verif)
+var Eats int64
+
+func eatHook() { atomic.AddInt64(&Eats, 1) }
